@@ -26,6 +26,7 @@ type RangeRef struct {
 }
 
 type SpecEnv struct {
+	resultDefined map[int]bool // results assigned by `resultK == ...` clauses (call-site evaluation)
 	e       *Engine
 	st      *State
 	old     *State
@@ -849,7 +850,7 @@ func (env *SpecEnv) call(n *ast.CallExpr) Value {
 		}
 		tt := ifaceTagTerm(iv)
 		if tt == nil {
-			env.fail("errIs on untagged error")
+			env.fail("errIs on untagged error (null=%s dyn=%v obj=%q)", iv.null.Key(), iv.dyn, iv.obj)
 		}
 		return mkAnd(mkNot(iv.null), mkEq(tt, mkApp("errtag$"+name, SInt)))
 	case "padd":
